@@ -9,6 +9,7 @@ setter (see harness/props/c02.py) and in the model it is `same_value_silent`: a 
 fires does not reach `touch`.
 -/
 import DefconModel.Lemmas.Dirty
+import DefconModel.Lemmas.DirtyTree
 import DefconModel.Gen.Mutators
 
 namespace DefconModel.Props.C02
@@ -116,6 +117,278 @@ the catalogue or exempted by name with a stated reason.  A mutator added to the 
 obligation until someone decides where it belongs. -/
 theorem catalogue_covers :
     Gen.Mutators.found.all (fun p => p.2.all (fun m => covered p.1 m)) = true := by decide +kernel
+
+/-! ## Round 3: the target table on the object tree (M-DirtyTree)
+
+The model alone decides which objects a catalogued mutator changes directly: `DirtyTree.table` maps object kind ×
+mutator to symbolic targets (`self`, `child lib`, `child image`, `child info`, each `child contour / component / anchor`,
+and the relayed write of `font.lib` by the glyph-order callbacks), `DirtyTree.applyMut` interprets an entry on the tree.
+The theorems below hold for EVERY entry (not only the ones listed in the table), every receiver and every reachable
+state; `table_…` obligations tie the table to the harness catalogue and to the source (regenerated on every run). -/
+
+section tree
+open DefconModel.DirtyTree
+
+/-- Every tree that a history of catalogued mutator calls, holds and releases can produce from a well-formed
+initial tree is well formed: no mutator re-parents an object, new objects are younger than their container. -/
+theorem reachable_tree_wellformed {ts : TState} (h : Reachable ts) : WF ts.tree := by
+  induction h with
+  | init t s h => exact h
+  | step _ st ih =>
+    cases st with
+    | call recv e same =>
+      simp only [DirtyTree.step]
+      split
+      · rename_i hr
+        unfold applyMut
+        split
+        · exact ih
+        · exact wf_applyEffective _ recv e ih hr
+      · exact ih
+    | hold x => exact ih
+    | release x => simp only [DirtyTree.step]; rw [releaseT_tree]; exact ih
+
+/-- A mutator call leaves the chain (object, container, …, font) of every existing object as it was. -/
+theorem mutator_keeps_chains (ts : TState) (hw : WF ts.tree) (recv : Nat) (hr : recv < ts.tree.length) (e : Entry)
+    (same : Bool) (x : Nat) (hx : x < ts.tree.length) : path (applyMut ts recv e same).tree x = path ts.tree x := by
+  unfold applyMut
+  split
+  · rfl
+  · exact path_applyEffective ts recv e hw hr x hx
+
+/-- MUTATOR ⇒ CHAIN.  For every object kind and catalogued mutator (indeed for every table entry whatsoever), applied
+with an effective change to any existing receiver in any well-formed — hence any reachable — tree, with ANY pattern
+of holds on the chain and elsewhere: once the holds have been released (any order, any interleaving with other
+releases), every object the table names as a direct target of the call, and every container above it up to the font,
+is dirty and has delivered its `*.Changed`. -/
+theorem mutator_dirties_chain (ts : TState) (hw : WF ts.tree) (recv : Nat) (hr : recv < ts.tree.length) (e : Entry)
+    (tg : Nat) (htg : tg ∈ directTargets ts.tree recv e) (ys : List Nat)
+    (hdis : ∀ a ∈ path ts.tree tg, a ∉ ts.s.disabled)
+    (hall : (releaseAllT (applyMut ts recv e false) ys).s.holds = []) :
+    ∀ a ∈ path ts.tree tg, a ∈ (releaseAllT (applyMut ts recv e false) ys).s.dirty ∧
+      a ∈ (releaseAllT (applyMut ts recv e false) ys).s.log := by
+  have hm : applyMut ts recv e false = applyEffective ts recv e := by unfold applyMut; simp
+  rw [hm] at hall ⊢
+  have hlt := directTargets_lt ts.tree recv e hr tg htg
+  have hp := path_applyEffective ts recv e hw hr tg hlt
+  have hi := inv_applyEffective ts recv e hw hr tg htg hdis
+  have := inv_releaseAllT ys (applyEffective ts recv e) (wf_applyEffective ts recv e hw hr) tg
+    (by rw [hp, applyEffective_disabled ts recv e hw hr]; exact hdis) (by rw [hp]; exact hi)
+  rw [hp] at this
+  exact all_done_of_no_holds _ _ hall this
+
+/-- … in particular in every state a history can reach. -/
+theorem mutator_dirties_chain_reachable {ts : TState} (h : Reachable ts) (recv : Nat) (hr : recv < ts.tree.length)
+    (e : Entry) (tg : Nat) (htg : tg ∈ directTargets ts.tree recv e) (ys : List Nat)
+    (hdis : ∀ a ∈ path ts.tree tg, a ∉ ts.s.disabled)
+    (hall : (releaseAllT (applyMut ts recv e false) ys).s.holds = []) :
+    ∀ a ∈ path ts.tree tg, a ∈ (releaseAllT (applyMut ts recv e false) ys).s.dirty ∧
+      a ∈ (releaseAllT (applyMut ts recv e false) ys).s.log :=
+  mutator_dirties_chain ts (reachable_tree_wellformed h) recv hr e tg htg ys hdis hall
+
+/-- THE RELAYED TARGET.  A mutator that makes the font update its glyph order (`Layer.newGlyph / insertGlyph /
+__delitem__`, `Glyph.name =`) changes `font.lib` through a notification that is not `*.Changed`; a hold on the
+poster (the layer; the glyph and the layer) keeps it back.  Whatever is held: once all holds are released, `font.lib`
+and the font are dirty and have delivered their `*.Changed` — the update is neither lost in a hold queue nor applied
+without being announced.  (`huw`: the font listens to the posters — it does not, yet, to a layer made while the layer
+set's notifications are held, until that hold is released: the code as it is, see the example below.) -/
+theorem relayed_update_arrives (ts : TState) (hw : WF ts.tree) (recv : Nat) (hr : recv < ts.tree.length) (e : Entry)
+    (ns : List Nat) (hns : relayNodes ts.tree recv e.relay = some ns) (huw : ∀ n ∈ ns, n ∉ ts.unwired)
+    (l : Nat) (hl : l ∈ fontLib ts.tree recv)
+    (ys : List Nat) (hdis : ∀ a ∈ path ts.tree l, a ∉ ts.s.disabled)
+    (hall : (releaseAllT (applyMut ts recv e false) ys).s.holds = []) :
+    ∀ a ∈ path ts.tree l, a ∈ (releaseAllT (applyMut ts recv e false) ys).s.dirty ∧
+      a ∈ (releaseAllT (applyMut ts recv e false) ys).s.log := by
+  have hm : applyMut ts recv e false = applyEffective ts recv e := by unfold applyMut; simp
+  rw [hm] at hall ⊢
+  have hlt : l < ts.tree.length := mem_children_lt _ _ _ _ hl
+  have hp := path_applyEffective ts recv e hw hr l hlt
+  have ha := arrives_applyEffective ts recv e hw hr ns hns huw l hl hdis
+  have := arrives_releaseAllT ys (applyEffective ts recv e) (wf_applyEffective ts recv e hw hr) l
+    (by rw [hp, applyEffective_disabled ts recv e hw hr]; exact hdis) (by rw [hp]; exact ha)
+  rw [hp] at this
+  exact arrived_of_no_holds _ _ l hall this
+
+/-- SAME VALUE ⇒ SILENT.  For every entry marked `guarded` (scalar setters, item assignment of lib / kerning / groups /
+image set, `clear` of an empty mapping): handing in the value the object holds changes nothing at all — no flag, no
+delivery, no queue entry, no tree edit, nothing relayed. -/
+theorem same_value_mutator_silent (ts : TState) (recv : Nat) (e : Entry) (hg : e.guarded = true) :
+    applyMut ts recv e true = ts := by
+  unfold applyMut; simp [hg]
+
+/-- A plain guarded setter (`targets = [self]`, nothing relayed, no tree effect — 40 of the table's 108 entries) IS the
+`guardedSet` of M-Dirty on the receiver's chain: its silence is `same_value_silent`, its propagation is
+`change_propagates`. -/
+theorem plain_setter_is_guardedSet (ts : TState) (recv : Nat) (e : Entry) (hg : e.guarded = true) (ht : e.targets = [.self])
+    (hrel : e.relay = .none) (he : e.effs = []) (same : Bool) :
+    (applyMut ts recv e same).s = guardedSet ts.s recv (up ts.tree recv) 0 (if same then 0 else 1) := by
+  unfold applyMut guardedSet
+  cases same with
+  | true => simp [hg]
+  | false =>
+    simp only [hg, Bool.and_false, Bool.false_eq_true, if_false]
+    unfold applyEffective directTargets
+    simp [ht, hrel, he, relayNodes, targetNodes, touchT]
+
+theorem plain_setter_same_value_silent (ts : TState) (recv : Nat) (e : Entry) (hg : e.guarded = true) (ht : e.targets = [.self])
+    (hrel : e.relay = .none) (he : e.effs = []) : (applyMut ts recv e true).s = ts.s := by
+  rw [plain_setter_is_guardedSet ts recv e hg ht hrel he true]
+  exact same_value_silent ts.s recv (up ts.tree recv) 0
+
+/-- with nothing relayed waiting, a release in the tree model IS M-Dirty's `release` on the chain of the node -/
+theorem releaseT_no_deferred (ts : TState) (h : ts.deferred = []) (y : Nat) :
+    (releaseT ts y).s = release ts.s y (up ts.tree y) ∧ (releaseT ts y).tree = ts.tree ∧ (releaseT ts y).deferred = [] := by
+  unfold releaseT
+  simp only [h, List.filter_nil, List.foldl_nil]
+  split <;> exact ⟨rfl, rfl, by first | rfl | exact h⟩
+
+theorem releaseAllT_no_deferred (ys : List Nat) (ts : TState) (h : ts.deferred = []) :
+    (releaseAllT ts ys).s = releaseAll ts.s (ys.map fun y => (y, up ts.tree y)) := by
+  induction ys generalizing ts with
+  | nil => rfl
+  | cons y r ih =>
+    obtain ⟨h1, h2, h3⟩ := releaseT_no_deferred ts h y
+    have := ih (releaseT ts y) h3
+    unfold releaseAllT releaseAll at this ⊢
+    simp only [List.foldl_cons, List.map_cons]
+    rw [this, h1, h2]
+
+/-- REDUCTION, literally.  For a plain entry (`targets = [self]`, nothing relayed, no tree effect — every scalar setter
+and every point / item edit of the table) in a state where no relayed notification waits, the run "call, then release
+`ys`" of the tree model is the run `releaseAll (touch s x rest) rels` of M-Dirty on the receiver's chain, and the claim is
+`change_propagates` itself. -/
+theorem plain_mutator_dirties_chain (ts : TState) (hw : WF ts.tree) (hd : ts.deferred = []) (recv : Nat) (e : Entry)
+    (ht : e.targets = [.self]) (hrel : e.relay = .none) (he : e.effs = []) (ys : List Nat)
+    (hdis : ∀ a ∈ recv :: up ts.tree recv, a ∉ ts.s.disabled)
+    (hall : (releaseAllT (applyMut ts recv e false) ys).s.holds = []) :
+    ∀ a ∈ recv :: up ts.tree recv, a ∈ (releaseAllT (applyMut ts recv e false) ys).s.dirty ∧
+      a ∈ (releaseAllT (applyMut ts recv e false) ys).s.log := by
+  have hs : applyMut ts recv e false =
+      { ts with s := touch ts.s recv (up ts.tree recv), hits := ts.hits ++ [recv] } := by
+    unfold applyMut applyEffective directTargets
+    simp [ht, hrel, he, relayNodes, targetNodes, touchT]
+  rw [hs] at hall ⊢
+  have key := releaseAllT_no_deferred ys
+    { ts with s := touch ts.s recv (up ts.tree recv), hits := ts.hits ++ [recv] } hd
+  rw [key] at hall ⊢
+  apply change_propagates ts.s recv (up ts.tree recv) _ hdis _ hall
+  intro r hr hmem
+  simp only [List.mem_map] at hr
+  obtain ⟨y, _, rfl⟩ := hr
+  exact path_split ts.tree hw recv y hmem
+
+/-! ### the table, the harness catalogue and the source (regenerated tables) -/
+
+def kindLabel : Kind → String
+  | .font => "font" | .layerSet => "layerSet" | .layer => "layer" | .glyph => "glyph" | .contour => "contour"
+  | .component => "component" | .anchor => "anchor" | .guideline => "guideline" | .image => "image" | .lib => "lib"
+  | .info => "info" | .kerning => "kerning" | .groups => "groups" | .features => "features" | .images => "images"
+  | .data => "data"
+
+def inTable (k : String) (m : String) : Bool := table.any (fun e => kindLabel e.kind = k && e.name = m)
+
+/-- Every (kind, mutator name) the correspondence harness can send — its catalogue and the variant names, as
+regenerated from `harness/props/c02.py` — has an entry in the target table. -/
+theorem table_covers_catalogue :
+    Gen.Mutators.driven.all (fun p => p.2.all (fun m => inTable p.1 m)) = true := by decide +kernel
+
+/-- the facts the AST extractor found for a source method of a kind, if it could decide them -/
+def factsOf (k : String) (m : String) : Option Gen.Mutators.Facts :=
+  (Gen.Mutators.facts.find? (fun f => f.kind = k && f.method = m))
+
+def targetRole : Target → String
+  | .self => "self"
+  | .child r => kindLabel r
+
+def relayRole : Relay → Option String
+  | .none => none
+  | .viaSelf => some "font.lib<self"
+  | .viaSelfAndParent => some "font.lib<parent"
+
+/-- an entry agrees with what the source says about the methods it runs: every target the table names is reached by
+one of them (`self.dirty = …` for `self`; a write through `self.lib[…]`, `self._image`, `self.info.dirty`, or a loop
+calling a mutator on each contour / component / anchor, for the children), conversely `self` is a target whenever one of the
+methods sets `self.dirty`; a `guarded` entry's methods all carry the comparison that returns early; an entry with a relay
+runs a method that posts a notification for which the Font (`viaSelf`), or the container and then the Font
+(`viaSelfAndParent`), has registered a callback that ends in `self.lib[…] = …`, and conversely a method that posts such a
+notification has an entry (same kind, same methods) with that relay -/
+def agrees (e : Entry) : Bool :=
+  let fs := e.methods.filterMap (factsOf (kindLabel e.kind))
+  -- methods the extractor could not decide are skipped here and listed in the evidence
+  fs.length < e.methods.length ||
+  ((e.targets.all fun t => fs.any fun f => f.reaches.contains (targetRole t)) &&
+   (!(fs.any fun f => f.reaches.contains "self") || e.targets.contains .self) &&
+   (!e.guarded || fs.all fun f => f.guard) &&
+   (match relayRole e.relay with
+    | none => true
+    | some r => fs.any fun f => f.reaches.contains r) &&
+   (fs.all fun f => (f.reaches.filter fun r => r = "font.lib<self" || r = "font.lib<parent").all fun r =>
+      table.any fun e' => e'.kind = e.kind && e'.methods = e.methods && relayRole e'.relay = some r))
+
+/-- THE TABLE AGREES WITH THE SOURCE, wherever the extractor can decide it syntactically: checked against the AST of
+the current working tree on every run. -/
+theorem table_agrees_with_source : table.all agrees = true := by decide +kernel
+
+/-- … and the extractor does decide most of it: the entries all of whose methods it found. -/
+def decided (e : Entry) : Bool := (e.methods.filterMap (factsOf (kindLabel e.kind))).length = e.methods.length
+
+/-! ### non-vacuity on a tree: font 0 › layer set 1 › layer 2 (lib 3) › glyph 4 (lib 5, contour 6, image 7); font lib 8, info 9;
+glyph and layer are held -/
+
+def demoTree : Tree :=
+  [⟨.font, none, false⟩, ⟨.layerSet, some 0, false⟩, ⟨.layer, some 1, false⟩, ⟨.lib, some 2, false⟩, ⟨.glyph, some 2, false⟩,
+   ⟨.lib, some 4, false⟩, ⟨.contour, some 4, false⟩, ⟨.image, some 4, false⟩, ⟨.lib, some 0, false⟩, ⟨.info, some 0, false⟩]
+def demoT : TState := holdT (holdT { tree := demoTree } 4) 2
+def markColorE : Entry := { setter .glyph "markColor" with targets := [.child .lib] }
+def nameE : Entry := { setter .glyph "name" with relay := .viaSelfAndParent }
+def newGlyphE : Entry :=
+  { kind := .layer, name := "newGlyph", methods := ["newGlyph"], relay := .viaSelf, effs := [.add .glyph true [(.lib, false), (.image, false)]] }
+
+example : WF demoTree := wf_of_wfb _ (by decide)
+example : Reachable demoT := .step (.step (.init demoTree {} (wf_of_wfb _ (by decide))) (.hold 4)) (.hold 2)
+example : lookup .glyph "markColor=" = some markColorE ∧ lookup .glyph "name=" = some nameE ∧
+    lookup .layer "newGlyph" = some newGlyphE := by decide
+/-- `glyph.markColor = …` changes the glyph's lib (5), not the glyph; the glyph hears of it and waits in its hold -/
+example : directTargets demoTree 4 markColorE = [5] ∧ path demoTree 5 = [5, 4, 2, 1, 0] ∧
+    (applyMut demoT 4 markColorE false).s.dirty = [5, 4] ∧ (applyMut demoT 4 markColorE false).s.log = [5] ∧
+    (applyMut demoT 4 markColorE false).s.pending = [4] := by decide
+/-- layer first, then glyph: everything arrives (hypotheses and conclusion of `mutator_dirties_chain`) -/
+example : (releaseAllT (applyMut demoT 4 markColorE false) [2, 4]).s.holds = [] ∧
+    (releaseAllT (applyMut demoT 4 markColorE false) [2, 4]).s.dirty = [5, 4, 2, 1, 0] ∧
+    (releaseAllT (applyMut demoT 4 markColorE false) [2, 4]).s.log = [5, 4, 2, 1, 0] := by decide
+/-- the same value: nothing (`same_value_mutator_silent`) -/
+example : markColorE.guarded = true ∧ (applyMut demoT 4 markColorE true).s.dirty = [] ∧
+    (applyMut demoT 4 markColorE true).s.log = [] := by decide
+/-- `glyph.name = …` while glyph and layer are held: the glyph is dirty, `Glyph.NameChanged` waits in the glyph's hold;
+released, `Layer.GlyphNameChanged` waits in the layer's hold; released, the font writes its lib (8)
+(hypotheses and conclusion of `relayed_update_arrives`) -/
+example : relayNodes demoTree 4 nameE.relay = some [4, 2] ∧ fontLib demoTree 4 = [8] ∧
+    (applyMut demoT 4 nameE false).deferred = [⟨4, [2], 8⟩] ∧ (applyMut demoT 4 nameE false).s.dirty = [4] ∧
+    (releaseT (applyMut demoT 4 nameE false) 4).deferred = [⟨2, [], 8⟩] ∧
+    (releaseAllT (applyMut demoT 4 nameE false) [4, 2]).deferred = [] ∧
+    (releaseAllT (applyMut demoT 4 nameE false) [4, 2]).s.holds = [] ∧
+    (releaseAllT (applyMut demoT 4 nameE false) [4, 2]).s.dirty = [4, 2, 1, 0, 8] ∧
+    (releaseAllT (applyMut demoT 4 nameE false) [4, 2]).s.log = [4, 2, 1, 0, 8, 0] := by decide
+/-- `layer.newGlyph(…)`: a glyph (10, dirty) with its lib (11) and image (12) joins; chains of old nodes stay
+(`mutator_keeps_chains`), the tree stays well formed (`reachable_tree_wellformed`) -/
+example : (applyMut demoT 2 newGlyphE false).tree.length = 13 ∧ path (applyMut demoT 2 newGlyphE false).tree 11 = [11, 10, 2, 1, 0] ∧
+    path (applyMut demoT 2 newGlyphE false).tree 6 = [6, 4, 2, 1, 0] ∧ wfb (applyMut demoT 2 newGlyphE false).tree = true ∧
+    (applyMut demoT 2 newGlyphE false).s.dirty = [10, 2] := by decide
+/-- a layer (10, with its lib 11) made while the layer set (1) is held: the font has not heard `LayerSet.LayerAdded` yet and
+does not listen to the new layer — a glyph made there leaves the font lib (8) alone; once the layer set is released the
+font listens, and the next glyph does update the glyph order (the code as it is; `huw` of `relayed_update_arrives`) -/
+example :
+    let newLayerE : Entry := { kind := .layerSet, name := "newLayer", methods := ["newLayer"], effs := [.add .layer true [(.lib, false)]] }
+    let t1 := applyMut (holdT { tree := demoTree } 1) 1 newLayerE false
+    t1.unwired = [10] ∧ (applyMut t1 10 newGlyphE false).hits = [1, 10] ∧
+    (releaseT t1 1).unwired = [] ∧ (applyMut (releaseT t1 1) 10 newGlyphE false).hits = [1, 10, 8] := by decide
+/-- a plain setter is M-Dirty's `guardedSet` on the receiver's chain -/
+example : (setter .glyph "width").guarded = true ∧ (setter .glyph "width").targets = [.self] ∧
+    (setter .glyph "width").relay = .none ∧ (setter .glyph "width").effs = [] := by decide
+/-- the extractor decides targets, guards and relays of the whole table -/
+example : (table.filter decided).length = 108 ∧ table.length = 108 := by decide +kernel
+
+end tree
 
 /-! ### non-vacuity: a contour (3) in a glyph (2) in a layer (1) in a font (0), glyph and layer held -/
 
